@@ -7,5 +7,6 @@ import GraphSlam.Props.C10.SE2Extra
 import GraphSlam.Props.C10.SE3Core
 import GraphSlam.Props.C10.SE3Extra
 import GraphSlam.Props.C10.SE3Boxplus
+import GraphSlam.Props.C10.Chain
 
 /-! C10 — umbrella module: all public pose Jacobian methods are exact derivatives. -/
